@@ -344,6 +344,42 @@ def peer_texts(ctx):
               b"v=0\r\no=- 1 2 IN IP4 127.0.0.1\r\ns=-\r\nc=IN IP4 203.0.113.9\r\nt=0 0\r\n",
               b"v=0\r\no=- 1 2 IN IP4 127.0.0.1\r\ns=-\r\nc=IN IP4 192.168.0.9\r\nt=0 0\r\nm=audio 9 RTP/AVP 0\r\nc=IN IP6 2001:db8::7\r\n"]:
         out.append(("conn-line-only", t))
+    out += truncated_candidate_texts(rng, thorough)
+    return out
+
+
+CAND_FIELDS = ["3769337065", "1", "udp", "2122260223", "203.0.113.5", "56688", "typ", "host", "generation", "0"]
+
+
+def truncated_candidate_texts(rng, thorough):
+    """a=candidate attributes cut to every field count 0..10 (and with extra fields), as the first / middle / last
+    / only candidate of a media section, between candidates the function skips (local) or would take (remote), with
+    the separators a field-splitting parser and pion/ice read differently; in the first or the second media section"""
+    out = []
+    head = "v=0\r\no=- 1 2 IN IP4 127.0.0.1\r\ns=-\r\nt=0 0\r\n"
+    local = "a=candidate:7 1 udp 1 192.168.1.%d 9 typ host\r\n"
+    remote = "a=candidate:8 1 udp 1 198.51.100.%d 9 typ host\r\n"
+    seps = [" ", " ", "  ", "\t"] if not thorough else [" ", "  ", "\t", " \t "]
+    counts = list(range(0, len(CAND_FIELDS) + 1)) + [12, 40]
+    for n in counts:
+        f = (CAND_FIELDS + ["x%d" % i for i in range(40)])[:n]
+        for pos in ("only", "first", "middle", "last"):
+            for sep in (seps if thorough else [rng.choice(seps)]):
+                vals = [sep.join(f)]
+                if n and rng.random() < 0.5:
+                    vals.append(sep.join(f) + rng.choice([" ", "\t", "  "]))     # trailing separator
+                if n >= 5 and rng.random() < 0.5:
+                    g = list(f); g[4] = rng.choice(["10.0.0.1", "fd00::1", "2001:db8::9", "foo.local", "", "999.1.1.1"]); vals.append(sep.join(g))
+                for v in vals:
+                    cand = "a=candidate:" + v + "\r\n"
+                    other = rng.choice([local, local, remote])
+                    o1, o2 = other % rng.randrange(1, 250), other % rng.randrange(1, 250)
+                    body = {"only": cand, "first": cand + o1 + o2, "middle": o1 + cand + o2, "last": o1 + o2 + cand}[pos]
+                    conn = rng.choice(["c=IN IP4 0.0.0.0\r\n", "c=IN IP4 203.0.113.77\r\n", ""])
+                    m1 = M_APP + conn + "a=ice-ufrag:aMAZ\r\n" + body + "a=mid:0\r\n"
+                    if rng.random() < 0.3:   # in the second media section, after one without usable candidates
+                        m1 = "m=audio 9 UDP/TLS/RTP/SAVPF 111\r\n" + local % 3 + "a=mid:1\r\n" + m1
+                    out.append(("truncated-candidate:%s-fields" % (n if n <= 10 else "extra"), (head + m1).encode()))
     return out
 
 
